@@ -92,6 +92,30 @@ func (c05Driver) Generate(t *tape.Tape, tier string) core.Case {
 	g := model.Generate(t.Sub("scenario"), profGeneral(t.Sub("profile")))
 	c.Scenario = g.S
 	c.Injected = g.Injected
+	// order trap: an older revision of one module is part of the set as well
+	if rt := t.Sub("revisions"); rt.Chance(1, 6) {
+		var cand []*model.Mod
+		for _, m := range g.S.Mods {
+			if !m.IsSub() && len(m.Includes) == 0 && len(m.Deviations) == 0 {
+				cand = append(cand, m)
+			}
+		}
+		if len(cand) > 0 {
+			m := cand[rt.Intn(len(cand))]
+			m.Revs = []string{"2021-05-05"}
+			b, _ := json.Marshal(m)
+			older := &model.Mod{}
+			json.Unmarshal(b, older)
+			older.Revs = []string{"2019-03-03"}
+			older.Augments = nil
+			older.Body = append(older.Body, &model.Node{Kind: model.KLeaf, Name: "only-in-older-revision", Type: &model.Type{Ref: model.Ref{Name: "string"}}})
+			if len(older.Identities) > 0 && rt.Chance(1, 2) {
+				older.Identities = older.Identities[:len(older.Identities)-1]
+			}
+			g.S.Mods = append(g.S.Mods, older)
+			c.Injected = append(c.Injected, "two-revisions-of-"+m.Name)
+		}
+	}
 	ot := t.Sub("options")
 	c.Options.StoreUses = ot.Chance(1, 4)
 	c.Options.IgnoreNotSupported = ot.Chance(1, 6)
@@ -143,6 +167,10 @@ func (d c05Driver) Run(cc core.Case) core.Outcome {
 	c := cc.(*c05Case)
 	var o core.Outcome
 	o.Key = tape.Hash64(core.MarshalCase(c))
+	if noRevPair(c.Scenario) {
+		o.Discard = "input-class-of-open-finding-C13-norev"
+		return o
+	}
 	texts := c.texts()
 	names := sortedNames(texts)
 	switch c.Mode {
